@@ -339,7 +339,7 @@ func (t Token) Float32() (float32, bool) {
 			return float32(f), true
 		}
 	case numberValue:
-		n, err := strconv.ParseFloat(t.str, 64)
+		n, err := strconv.ParseFloat(t.str, 32)
 		if err == nil {
 			// Overflows are treated as (-)infinity.
 			return float32(n), true
